@@ -597,6 +597,26 @@ def rule_d(ctx):
     ctx.floor('d', 'received_max_streams_stores', seen_rms, 1)
 
 
+def _marked_reset_inline(F, body, send):
+    """Send::reset() written out in the caller.  Its whole effect is `self.state = SendState::ResetSent` (on every
+    state that is not ResetSent already), so the inlined form is: a direct store of the unit variant
+    SendState::ResetSent into `.state` of the very Send described by `send` (same descriptor as the receiver the
+    call form would have).  A store of another variant, or into another Send, is not the reset of this stream."""
+    for w in field_writes(F, 'send::Send', 'state', crate='quinn_proto', include_borrows=False):
+        if w.body.id != body.id or w.kind != 'assign' or not w.rv or w.rv[0] == 'sd':
+            continue
+        pr = w.place[1]
+        if not (pr and isinstance(pr[-1], list) and pr[-1][0] == 'f' and pr[-1][1] == 'state'):
+            continue    # a store below .state (a field of a variant) is not the transition
+        d = describer(F, body)
+        v = d.rvalue(w.rv, w.bb, w.idx, 0)
+        if not (v[0] == 'agg' and v[1] == 'adt' and v[2].endswith('SendState::ResetSent') and not v[3]):
+            continue
+        if d.place([w.place[0], pr[:-1]], w.bb, w.idx) == send:
+            return True
+    return False
+
+
 def rule_e(ctx):
     who_may_write(ctx, 'e', 'data_sent_writers', SS, 'data_sent', ['SendStream::write_source', 'StreamsState::zero_rtt_rejected', 'StreamsState::new'], floor=2,
                   why='data_sent is the connection-level flow-control consumption; it is only raised by accepted writes and zeroed on 0-RTT rejection')
@@ -621,7 +641,8 @@ def rule_e(ctx):
             # ... of the stream being reset: the receiver of unacked() is `.pending` of the Send that reset() is then called on
             if ok:
                 recv = v[3][3][0] if v[3][3] else ()
-                ok = bool(recv) and recv[0] == 'field' and recv[2] == 'pending' and any(arg_desc(F, c, 0) == recv[1] for c in w.body.calls_to('Send::reset'))
+                ok = bool(recv) and recv[0] == 'field' and recv[2] == 'pending' and (any(arg_desc(F, c, 0) == recv[1] for c in w.body.calls_to('Send::reset'))
+                                                                                     or _marked_reset_inline(F, w.body, recv[1]))
             ctx.check(ok, 'e', 'reset_releases_unacked_remainder', r, w.where(), D.render(v)[:140], 'unexpected release expression: ' + D.render(v)[:200])
 
 
